@@ -397,66 +397,169 @@ def _pow2(n):
     return n > 0 and (n & (n - 1)) == 0
 
 
+INV_OWNER = 'darray::Inventories'
+
+
+def _origin_id(F, l, depth=0):
+    """Identity of the container a local is (a reference to / a conversion of): (root local, first field name | None).
+    Follows moves, re-borrows and the conversions that keep the elements (into_boxed_slice, collect, into ...)."""
+    if depth > 10:
+        return (l, None)
+    if 1 <= l <= F.argc:
+        return (l, None)
+    ds = [d for d in F.defs.get(l, []) if d[0] in F.reach]
+    if len(ds) != 1:
+        return (l, None)
+    d = ds[0]
+    if d[1] == 'assign':
+        rv = d[2]
+        pl = None
+        if rv['k'] in ('ref', 'rawptr'):
+            pl = rv['p']
+        elif rv['k'] == 'use' and 'p' in rv['a']:
+            pl = rv['a']['p']
+        elif rv['k'] == 'cast' and 'p' in rv['a']:
+            pl = rv['a']['p']
+        if pl is None:
+            return (l, None)
+        fld = next((e['f'] for e in pl['proj'] if isinstance(e, dict) and 'f' in e), None)
+        if fld is not None:
+            # field of a struct local (possibly behind a reference)
+            r = _origin_id(F, pl['l'], depth + 1)
+            return (r[0], fld)
+        if any(isinstance(e, dict) for e in pl['proj']):
+            return (l, None)
+        return _origin_id(F, pl['l'], depth + 1)
+    t = d[2]
+    if 'fn' in t['f'] and t['args'] and 'p' in t['args'][0] and t['f']['fn']['name'] in (
+            'into_boxed_slice', 'into', 'collect', 'into_iter', 'from', 'unwrap', 'try_into', 'to_vec', 'into_vec', 'deref_mut', 'deref',
+            'as_mut', 'as_ref', 'borrow_mut', 'as_mut_slice', 'take', 'from_iter'):
+        a0 = t['args'][0]['p']
+        fld = next((e['f'] for e in a0['proj'] if isinstance(e, dict) and 'f' in e), None)
+        r = _origin_id(F, a0['l'], depth + 1)
+        return (r[0], fld) if fld is not None else r
+    return (l, None)
+
+
+def _dar_containers(FA, F):
+    """{field name of Inventories: identity of the local container its value is built in} in an (inlined) constructor."""
+    adt = FA.adts.get(INV_OWNER) or {}
+    names = [x['name'] for x in adt.get('fields', [])]
+    out = {}
+    for bi, b in enumerate(F.blocks):
+        if bi not in F.reach:
+            continue
+        for st in b['s']:
+            rv = st['rv']
+            if rv['k'] == 'agg' and rv['kind'].get('adt') == INV_OWNER:
+                for i, o in enumerate(rv['ops']):
+                    if i < len(names) and 'p' in o:
+                        fld = next((e['f'] for e in o['p']['proj'] if isinstance(e, dict) and 'f' in e), None)
+                        ident = _origin_id(F, o['p']['l'])
+                        if fld is not None:
+                            ident = (ident[0], fld)
+                        out.setdefault(names[i], set()).add(ident)
+    return out
+
+
+def _recv_id(F, operand):
+    if not operand or 'p' not in operand:
+        return None
+    pl = operand['p']
+    fld = next((e['f'] for e in pl['proj'] if isinstance(e, dict) and 'f' in e), None)
+    r = _origin_id(F, pl['l'])
+    return (r[0], fld) if fld is not None else r
+
+
 def rule_DAR(FA):
+    """Reader / writer agreement of the DArray inventories.  The reader is the public select1 with its private helpers
+    inlined; the writer is the public constructor with Inventories::new and the flush helper(s) inlined.  The three arrays
+    are identified by the Inventories fields their contents end up in, not by the names of helpers or parameters."""
     out = []
     props = ['C07']
-    sel = (FA.by_base_name.get(('darray::DArray', 'select'), []) or [None])[0]
-    fl = (FA.by_base_name.get(('darray::Inventories', 'flush_block'), []) or [None])[0]
-    nw = (FA.by_base_name.get(('darray::Inventories', 'new'), []) or [None])[0]
-    if sel is None or fl is None or nw is None:
-        return [Inst('R-DAR', 'R-DAR|anchors', 'violation', '', 'DArray::select / Inventories::flush_block / new not found (anchor lost)', props)]
-    # reader divisors
+    from .r_guard import find_method
+    sels = [f for f in find_method(FA, 'darray::DArray', 'select1') if not f['unsafe']]
+    nws = [f for f in find_method(FA, 'darray::DArray', 'new')]
+    if not sels or not nws or INV_OWNER not in FA.adts:
+        return [Inst('R-DAR', 'R-DAR|anchors', 'violation', '', 'DArray::select1 / DArray::new / Inventories not found (anchor lost)', props)]
+    sel = FA.inlined(sels[0])
+    nw = FA.inlined(nws[0])
+    # ---- reader divisors
     D = B = None
-    P_i = ('param', sel['names'].get('2', '_2'))
-    for spec in FA.specs(sel):
-        S = FA.fn(sel, spec)
-        for b in S.blocks:
-            for s in b['s']:
-                rv = s.get('rv')
-                if not rv:
+    P_i = ('param', sels[0]['names'].get('2', '_2'))
+    rterm = None
+    S = FA.fn(sel)
+    S.dom()
+    for bi, b in enumerate(S.blocks):
+        if bi not in S.reach:
+            continue
+        for s in b['s']:
+            rv = s.get('rv')
+            if not rv:
+                continue
+            if rv['k'] == 'cast' and rv['to'] == 'usize':
+                tt = norm(S.operand_term(rv['a']))
+                if tt[0] == 'bin' and tt[1] == 'Sub' and tt[3] == ('const', 1) and tt[2][0] == 'un' and tt[2][1] == 'Neg':
+                    rterm = tt
+            for o in rv_operands(rv):
+                if 'p' not in o:
                     continue
-                ops = [rv.get('a'), rv.get('b')] + list(rv.get('ops', [])) + ([{'p': rv['p']}] if 'p' in rv else [])
-                for o in ops:
-                    if o and 'p' in o:
-                        t = norm(S.operand_term(o))
-                        for st in subterms(t):
-                            if isinstance(st, tuple) and st and st[0] == 'index':
-                                fs = [x for x in subterms(st[1]) if isinstance(x, tuple) and x and x[0] == 'field']
-                                names = {x[2] for x in fs}
-                                idx = st[2]
-                                if idx[0] == 'bin' and idx[1] == 'Shr' and idx[2] == P_i and idx[3][0] == 'const':
-                                    if 'subblock_inventory' in names:
-                                        D = 1 << idx[3][1]
-                                    elif 'block_inventory' in names:
-                                        B = 1 << idx[3][1]
-                                if idx[0] == 'bin' and idx[1] == 'Div' and idx[2] == P_i and idx[3][0] == 'const':
-                                    if 'subblock_inventory' in names:
-                                        D = idx[3][1]
-                                    elif 'block_inventory' in names:
-                                        B = idx[3][1]
+                t = norm(S.operand_term(o))
+                for st in subterms(t):
+                    if isinstance(st, tuple) and st and st[0] == 'index':
+                        names = {x[2] for x in subterms(st[1]) if isinstance(x, tuple) and x and x[0] == 'field'}
+                        idx = norm(st[2])
+                        val = None
+                        if idx[0] == 'bin' and idx[1] == 'Shr' and idx[2] == P_i and idx[3][0] == 'const':
+                            val = 1 << idx[3][1]
+                        if idx[0] == 'bin' and idx[1] == 'Div' and idx[2] == P_i and idx[3][0] == 'const':
+                            val = idx[3][1]
+                        if val is not None:
+                            if 'subblock_inventory' in names:
+                                D = val
+                            elif 'block_inventory' in names:
+                                B = val
     if D is None or B is None:
-        out.append(Inst('R-DAR', 'R-DAR|reader divisors', 'violation', sel['span'], 'cannot find the reader indices `i / D` of subblock_inventory and `i / B` of block_inventory', props))
+        out.append(Inst('R-DAR', 'R-DAR|reader divisors', 'violation', sels[0]['span'], 'cannot find the reader indices `i / D` of subblock_inventory and `i / B` of block_inventory', props))
         return out
-    out.append(Inst('R-DAR', 'R-DAR|reader divisors', 'ok', sel['span'], 'reader: subblock = i / %d, block = i / %d' % (D, B), props, sample={'D': D, 'B': B}))
-    # writer: every append to subblock_inventory is a function of D (helpers of flush_block are inlined virtually)
-    F = FA.fn(fl)
-    sub_param = None
-    for k, v in fl['names'].items():
-        if v == 'subblock_inventory':
-            sub_param = ('param', v)
-    if sub_param is None:
-        sub_param = ('param', fl['names'].get('3', '_3'))
-    sites = list(inlined_sites(FA, fl))
+    out.append(Inst('R-DAR', 'R-DAR|reader divisors', 'ok', sels[0]['span'], 'reader: subblock = i / %d, block = i / %d' % (D, B), props, sample={'D': D, 'B': B}))
+    # ---- writer
+    W = FA.fn(nw)
+    W.dom()
+    cont = _dar_containers(FA, W)
+    sub_ids = cont.get('subblock_inventory', set())
+    blk_ids = cont.get('block_inventory', set())
+    ov_ids = cont.get('overflow_positions', set())
+    if not sub_ids or not blk_ids or not ov_ids:
+        out.append(Inst('R-DAR', 'R-DAR|anchors', 'violation', nws[0]['span'], 'construction of Inventories { block_inventory, subblock_inventory, overflow_positions } not found in DArray::new (anchor lost)', props))
+        return out
+    seen_keys = set()
+
+    def emit(inst):
+        if (inst.key, inst.status) not in seen_keys:
+            seen_keys.add((inst.key, inst.status))
+            out.append(inst)
     n_app = 0
-    for G, bi, atoms, to_root in sites:
-        t = G.blocks[bi]['t']
-        if t['k'] != 'call' or 'fn' not in t['f']:
-            continue
+    enc = []
+    ov_terms = []
+    trig = False
+    APP = ('push', 'extend', 'resize', 'extend_from_slice', 'append', 'insert', 'resize_with')
+    for bi, t in W.calls():
         fn = t['f']['fn']
-        if fn['name'] not in ('push', 'extend', 'resize', 'extend_from_slice', 'append', 'insert', 'resize_with') or not t['args']:
+        if fn['name'] not in APP or not t['args']:
             continue
-        recv = norm(to_root(G.operand_term(t['args'][0])))
-        if recv != sub_param:
+        rid = _recv_id(W, t['args'][0])
+        atoms = path_atoms(W, bi)
+        if rid in ov_ids:
+            ov_terms.append(strip_ref(norm(W.operand_term(t['args'][0]))))
+        if rid in blk_ids and fn['name'] == 'push':
+            v = norm(W.operand_term(t['args'][1]))
+            if any(isinstance(x, tuple) and x and x[0] == 'un' and x[1] == 'Neg' for x in subterms(v)):
+                enc.append((v, t['line']))
+            for a in atoms:
+                if a[0] == '==' and ((a[1] == ('const', B)) or (a[2] == ('const', B))):
+                    trig = True
+        if rid not in sub_ids:
             continue
         n_app += 1
         cnt_terms = []
@@ -465,7 +568,7 @@ def rule_DAR(FA):
                 if a[0] == 'is' and a[2] == 1:
                     cnt_terms.append(a[1])
         else:
-            cnt_terms = [norm(to_root(G.operand_term(x))) for x in t['args'][1:]]
+            cnt_terms = [norm(W.operand_term(x)) for x in t['args'][1:]]
         okD = False
         for ct in cnt_terms:
             for st in subterms(ct):
@@ -479,56 +582,32 @@ def rule_DAR(FA):
         branch = 'dense' if any(a[0] in ('<', '<=') and isinstance(a[2], tuple) and a[2][:1] == ('const',) and a[2][1] >= 1024 for a in atoms) else 'sparse'
         key = 'R-DAR|flush_block %s branch appends per %d' % (branch, D)
         if okD:
-            out.append(Inst('R-DAR', key, 'ok', t['line'], '%s: number of subblock entries is a function of %d' % (fn['name'], D), props,
-                            sample={'count_terms': [show(c)[:120] for c in cnt_terms]}))
+            emit(Inst('R-DAR', key, 'ok', t['line'], '%s: number of subblock entries is a function of %d' % (fn['name'], D), props,
+                      sample={'count_terms': [show(c)[:120] for c in cnt_terms]}))
         else:
-            out.append(Inst('R-DAR', key, 'violation', t['line'],
-                            '%s branch appends a number of subblock_inventory entries that is not one per %d positions (`%s`), but the reader indexes the shared array with i / %d' % (
-                                branch, D, '; '.join(show(c)[:80] for c in cnt_terms), D), props,
-                            sample={'count_terms': [show(c)[:120] for c in cnt_terms]}))
+            emit(Inst('R-DAR', key, 'violation', t['line'],
+                      '%s branch appends a number of subblock_inventory entries that is not one per %d positions (`%s`), but the reader indexes the shared array with i / %d' % (
+                          branch, D, '; '.join(show(c)[:80] for c in cnt_terms), D), props,
+                      sample={'count_terms': [show(c)[:120] for c in cnt_terms]}))
     if n_app < 2:
-        out.append(Inst('R-DAR', 'R-DAR|flush_block appends', 'violation', fl['span'], 'expected an append to subblock_inventory in both branches, found %d' % n_app, props))
-    # sparse-group pointer: the writer stores -(len(overflow_positions)) - 1 *before* appending the group's positions to
-    # that same array; the reader decodes (-p - 1) and indexes overflow_positions with it
-    ov_param = None
-    bi_param = None
-    for k, v in fl['names'].items():
-        if v == 'overflow_positions':
-            ov_param = ('param', v)
-        if v == 'block_inventory':
-            bi_param = ('param', v)
-    ov_param = ov_param or ('param', fl['names'].get('4', '_4'))
-    bi_param = bi_param or ('param', fl['names'].get('2', '_2'))
-    enc = []
-    for G, bi, atoms, to_root in sites:
-        t = G.blocks[bi]['t']
-        if t['k'] != 'call' or 'fn' not in t['f']:
-            continue
-        fn = t['f']['fn']
-        if fn['name'] == 'push' and t['args'] and norm(to_root(G.operand_term(t['args'][0]))) == bi_param:
-            v = norm(to_root(G.operand_term(t['args'][1])))
-            if any(isinstance(x, tuple) and x and x[0] == 'un' and x[1] == 'Neg' for x in subterms(v)):
-                enc.append((v, t['line']))
+        out.append(Inst('R-DAR', 'R-DAR|flush_block appends', 'violation', nws[0]['span'], 'expected an append to subblock_inventory in both branches, found %d' % n_app, props))
+    # sparse-group pointer: the writer stores -(len(overflow_positions)) - 1 (the index at which this group's positions are
+    # appended to that same array); the reader decodes (-p - 1) and indexes overflow_positions with it
     key = 'R-DAR|sparse pointer encoding'
     if not enc:
-        out.append(Inst('R-DAR', key, 'violation', fl['span'], 'no negative group pointer pushed to block_inventory (anchor lost)', props))
+        out.append(Inst('R-DAR', key, 'violation', nws[0]['span'], 'no negative group pointer pushed to block_inventory (anchor lost)', props))
     else:
         v, line = enc[0]
-        want = norm(('bin', 'Sub', ('un', 'Neg', ('cast', 'i64', ('call', 'std::vec::Vec::len', (ov_param,)))), ('const', 1)))
-        wok = v == want
-        # reader
-        rok = False
-        rterm = None
-        for spec in FA.specs(sel):
-            S = FA.fn(sel, spec)
-            for b in S.blocks:
-                for s2 in b['s']:
-                    rv = s2.get('rv')
-                    if rv and rv['k'] == 'cast' and rv['to'] == 'usize':
-                        tt = norm(S.operand_term(rv['a']))
-                        if tt[0] == 'bin' and tt[1] == 'Sub' and tt[3] == ('const', 1) and tt[2][0] == 'un' and tt[2][1] == 'Neg':
-                            rterm = tt
-                            rok = True
+        wok = False
+        if v[0] == 'bin' and v[1] == 'Sub' and v[3] == ('const', 1) and v[2][0] == 'un' and v[2][1] == 'Neg':
+            inner = strip_casts(v[2][2])
+            if inner[0] == 'call' and inner[1].split('::')[-1] == 'len' and inner[2]:
+                recv = strip_ref(inner[2][0])
+                # `len()` may be taken through Deref to a slice
+                while recv[0] == 'call' and recv[1].split('::')[-1] in ('deref', 'as_slice', 'deref_mut') and recv[2]:
+                    recv = strip_ref(recv[2][0])
+                wok = recv in ov_terms
+        rok = rterm is not None
         if wok and rok:
             out.append(Inst('R-DAR', key, 'ok', line, 'writer stores -(len(overflow_positions)) - 1, reader decodes -(p) - 1', props,
                             sample={'writer': show(v), 'reader': show(rterm)}))
@@ -538,13 +617,14 @@ def rule_DAR(FA):
                                 show(v)[:100], '' if rok else ' and the reader does not decode -(p) - 1'), props, sample={'writer': show(v), 'reader': show(rterm) if rterm else None}))
     # narrowing store is dominated by span < C <= 2^16
     n_cast = 0
-    for G, bi, atoms_i, to_root in sites:
-        b = G.blocks[bi]
+    for bi, b in enumerate(W.blocks):
+        if bi not in W.reach:
+            continue
         for s in b['s']:
             rv = s.get('rv')
             if rv and rv['k'] == 'cast' and rv['to'] == 'u16' and rv['from'] in ('usize', 'u64', 'i64', 'u32'):
                 n_cast += 1
-                atoms = atoms_i
+                atoms = path_atoms(W, bi)
                 okc = False
                 seen = []
                 for op, a, c in [x for x in atoms if x[0] in ('<', '<=')]:
@@ -555,46 +635,55 @@ def rule_DAR(FA):
                             okc = True
                 key = 'R-DAR|u16 store bounded'
                 if okc:
-                    out.append(Inst('R-DAR', key, 'ok', s['line'], 'offset stored as u16 under %s' % '; '.join(seen), props))
+                    emit(Inst('R-DAR', key, 'ok', s['line'], 'offset stored as u16 under %s' % '; '.join(seen), props))
                 else:
-                    out.append(Inst('R-DAR', key, 'violation', s['line'],
-                                    'in-block offset is truncated to u16 without a dominating `span < 65536` (%s)' % ('; '.join(seen) or 'no bound'), props))
+                    emit(Inst('R-DAR', key, 'violation', s['line'],
+                              'in-block offset is truncated to u16 without a dominating `span < 65536` (%s)' % ('; '.join(seen) or 'no bound'), props))
     if n_cast == 0:
-        out.append(Inst('R-DAR', 'R-DAR|u16 store bounded', 'violation', fl['span'], 'narrowing store not found (anchor lost)', props))
-    # flush trigger at len == B
-    trig = False
-    for g in FA.lib_fns():
-        if not (g.get('_base') == 'darray::Inventories' or g['path'].startswith('darray::')):
-            continue
-        for spec in FA.specs(g):
-            N = FA.fn(g, spec)
-            for bi, t in N.calls():
-                if t['f']['fn']['name'] == 'flush_block':
-                    for a in path_atoms(N, bi):
-                        if a[0] == '==' and ((a[1] == ('const', B)) or (a[2] == ('const', B))):
-                            trig = True
-    out.append(Inst('R-DAR', 'R-DAR|flush trigger', 'ok' if trig else 'violation', nw['span'],
-                    'a group is flushed when it holds exactly %d positions' % B if trig else 'no flush dominated by `len == %d` (reader block size)' % B, props))
+        out.append(Inst('R-DAR', 'R-DAR|u16 store bounded', 'violation', nws[0]['span'], 'narrowing store not found (anchor lost)', props))
+    out.append(Inst('R-DAR', 'R-DAR|flush trigger', 'ok' if trig else 'violation', nws[0]['span'],
+                    'a group is flushed when it holds exactly %d positions' % B if trig else 'no block_inventory entry is written under `len == %d` (reader block size)' % B, props))
     return out
 
 
 # ---------------------------------------------------------------- R-LVL
 
+def _is_lengths_map(ty):
+    return 'HashMap<' in ty and 'u32' in ty.split('HashMap<', 1)[1]
+
+
+def _lvl_policy(g):
+    """Inline the private phases of the constructor, but keep the function that turns the coder's length map into
+    codes (recognised by its `HashMap<_, u32>` (reference) parameter, whatever its name) as a call."""
+    if not default_inline_policy(g):
+        return False
+    return not any(_is_lengths_map(g['locals'][i]) for i in range(1, g['argc'] + 1))
+
+
+def _takes_lengths_map(fn, FA):
+    if not (fn.get('local') or fn.get('crate') == 'qwt'):
+        return False
+    cands = FA.resolve(fn)
+    return len(cands) == 1 and any(_is_lengths_map(cands[0]['locals'][i]) for i in range(1, cands[0]['argc'] + 1))
+
+
 def rule_LVL(FA):
     out = []
-    for base, frag, props in (('quadwt::huffqwt::HuffQWaveletTree', 2, ['C02', 'C15']), ('binwt::WaveletTree', 1, ['C03', 'C15'])):
+    for base, frag, props, level_ty in (('quadwt::huffqwt::HuffQWaveletTree', 2, ['C02', 'C15'], 'QVectorBuilder'),
+                                        ('binwt::WaveletTree', 1, ['C03', 'C15'], 'BitVectorMut')):
         f = (FA.by_base_name.get((base, 'new'), []) or [None])[0]
         if f is None:
             out.append(Inst('R-LVL', 'R-LVL|%s::new' % base, 'violation', '', 'constructor not found (anchor lost)', props))
             continue
-        specs = [s for s in FA.specs(f) if s.get('COMPRESSED', True)]
+        fi = FA.inlined(f, _lvl_policy)
+        specs = [s for s in FA.specs(f, deep=True) if s.get('COMPRESSED', True)]
         n_push = 0
         n_craft = 0
         for spec in specs:
-            F = FA.fn(f, spec)
+            F = FA.fn(fi, spec)
             for bi, t in F.calls():
                 fn = t['f']['fn']
-                if fn['name'] == 'push' and ('QVectorBuilder' in fn['path'] or 'BitVectorMut' in fn['path']):
+                if fn['name'] == 'push' and level_ty in fn['path']:
                     n_push += 1
                     atoms = path_atoms(F, bi)
                     ok = any(a[0] in ('<=', '<') and isinstance(a[2], tuple) and a[2][:1] == ('field',) and a[2][2] == 'len' and a[1][0] != 'const' for a in atoms)
@@ -605,7 +694,7 @@ def rule_LVL(FA):
                         out.append(Inst('R-LVL', key, 'violation', t['line'],
                                         'level data is written without the dominating test that the symbol\'s code reaches this level: every symbol occupies every level', props,
                                         sample={'path_condition': [fmt_atom(a)[:100] for a in atoms]}))
-                if fn['name'] == 'craft_wm_codes':
+                if _takes_lengths_map(fn, FA):
                     n_craft += 1
                     a0 = norm(F.operand_term(t['args'][0]))
                     key = 'R-LVL|%s::new%s|optimal lengths' % (base, spec_key({k: v for k, v in spec.items() if k == 'COMPRESSED'}))
@@ -643,6 +732,25 @@ def rule_LVL(FA):
     return out
 
 
+def _only_entry_use(F, l):
+    """Is the `&mut map` in local l used only as the receiver of HashMap::entry (the counting idiom)?"""
+    n = 0
+    for bi, b in enumerate(F.blocks):
+        for s in b['s']:
+            for o in rv_operands(s['rv']):
+                if 'p' in o and o['p']['l'] == l:
+                    return False
+        t = b['t']
+        if t['k'] == 'call':
+            for k, a in enumerate(t['args']):
+                if 'p' in a and a['p']['l'] == l:
+                    if k == 0 and 'fn' in t['f'] and t['f']['fn']['name'] == 'entry':
+                        n += 1
+                    else:
+                        return False
+    return n > 0
+
+
 def _other_uses(F, ref_local, craft_bb):
     """Is the map behind `ref_local` (a &mut, possibly a reborrow chain) mutably borrowed or written
     anywhere else than for the craft_wm_codes call?"""
@@ -676,6 +784,8 @@ def _other_uses(F, ref_local, craft_bb):
         for s in b['s']:
             rv = s.get('rv')
             if rv and rv['k'] == 'ref' and rv['p']['l'] == owner and rv.get('mut') and s['lhs']['l'] not in chain:
+                if _only_entry_use(F, s['lhs']['l']):
+                    continue   # `*map.entry(sym).or_insert(0) += 1`: the counting pass itself
                 uses.append('another &mut borrow at %s' % s['line'])
             if 'lhs' in s and s['lhs']['l'] == owner and s['lhs']['proj']:
                 uses.append('direct write at %s' % s['line'])
@@ -909,10 +1019,11 @@ def rule_SPC(FA):
                                 'Box<[T]> sums its elements' if ok else 'Box<[T]> does not sum its elements', props))
             continue
         n += 1
-        got = _spc_fields(FA, f)
+        fi = FA.inlined(f)   # private accounting helpers (`boxed_bytes(&self.f)`) are part of the body
+        got = _spc_fields(FA, fi)
         comp = _component_params(FA, base)
         heap = [x['name'] for x in adt['fields'] if _heap_bearing(FA, x, comp)]
-        acc = _spc_accounted(FA, f)
+        acc = _spc_accounted(FA, fi)
         missing = [h for h in heap if (h not in got or h not in acc) and '*self' not in got and (base, h) not in SPC_EXCEPTIONS]
         key = 'R-SPC|%s' % base
         if missing:
